@@ -181,7 +181,27 @@ func c15rInterp(t *testing.T, c c15rCase) (v kit.Verdict) {
 				if ch.dirty {
 					continue
 				}
-				if want := values(ch.p); got != want {
+				if want := values(ch.p); want != "" && strings.Count(want, " ")+1 > 32 {
+					// more live values than the resolver's subset size (subsetSize = 32): the channel gets a
+					// random subset of exactly 32 distinct live values
+					classes["more-values-than-subset-size"] = true
+					live := map[string]bool{}
+					for _, w := range strings.Split(want, " ") {
+						live[w] = true
+					}
+					parts := strings.Split(got, " ")
+					if got == "" || len(parts) != 32 {
+						fail = fmt.Sprintf("%s: channel %d: %d live values, the last state has %d addresses, want the subset size 32", what, i, len(live), len(parts))
+						return false
+					}
+					for _, g := range parts {
+						if !live[g] {
+							fail = fmt.Sprintf("%s: channel %d: the last state lists %s which no live key holds", what, i, g)
+							return false
+						}
+					}
+					continue
+				} else if got != want {
 					fail = fmt.Sprintf("%s: channel %d (%s): the last state passed to UpdateState (of %d) has addresses [%s], registry holds %v => live values [%s]", what, i, c15rPrefixes[ch.p], n, got, store[ch.p], want)
 					return false
 				}
@@ -250,6 +270,22 @@ func c15rInterp(t *testing.T, c c15rCase) (v kit.Verdict) {
 				if has(p) && wasEmpty {
 					classes["first-instance-after-empty"] = true
 				}
+				kit.Wait()
+				if !check(what, nil) {
+					return
+				}
+			case "bulk":
+				// N further instances register with distinct values (or all expire), around subsetSize
+				if o.N < 1 || o.N > 500 {
+					continue
+				}
+				classes[fmt.Sprintf("bulk-%d-keys", o.N)] = true
+				var gap []internal.C15Gap
+				for k := 0; k < o.N; k++ {
+					g := toggle(p, c15rEv{Key: 1000 + k, Val: 1000 + k, NV: true})
+					gap = append(gap, internal.C15Gap{Del: g.del, Key: g.key, Val: g.val})
+				}
+				fake.ApplyBatch(gap)
 				kit.Wait()
 				if !check(what, nil) {
 					return
@@ -422,6 +458,9 @@ func c15rGen(rt *rapid.T) c15rCase {
 			kinds = []string{"build", "build", "ev"}
 		} else {
 			kinds = []string{"ev", "ev", "ev", "ev", "ev", "ev", "ev", "brk", "brk", "reload"}
+			if rapid.IntRange(0, 15).Draw(rt, "bulk") == 0 {
+				kinds = []string{"bulk"}
+			}
 			if nch < 3 {
 				kinds = append(kinds, "build")
 			}
@@ -442,6 +481,9 @@ func c15rGen(rt *rapid.T) c15rCase {
 			}
 			o.M = rapid.IntRange(0, 9).Draw(rt, "missed") < th
 			dirty = dirty || o.M
+		case "bulk":
+			o.P = pickPrefix("bulkp")
+			o.N = rapid.SampledFrom([]int{28, 31, 32, 33, 100}).Draw(rt, "bulkn")
 		case "brk":
 			o.Md = rapid.SampledFrom([]string{"stall", "stall", "close", "cancel", "error"}).Draw(rt, "mode")
 			outage = o.Md == "stall" || rapid.Bool().Draw(rt, "outage")
@@ -474,6 +516,6 @@ func c15rGen(rt *rapid.T) c15rCase {
 }
 
 func TestVerif_C15_resolver(t *testing.T) {
-	kit.Run(t, "C15", "resolver", kit.Opts{Quick: 4000, Thorough: 320000}, c15rGen,
+	kit.Run(t, "C15", "resolver", kit.Opts{Quick: 4000, Thorough: 200000}, c15rGen,
 		func(c c15rCase) kit.Verdict { return c15rInterp(t, c) })
 }
